@@ -22,7 +22,7 @@ Code it is anchored in: {json.dumps(p['anchors']['mechanism'])}
 
 YOUR TASK: make a small, realistic change to the library source (files under {wt}/transforge/) that BREAKS this property while the library still imports and the existing test suite gives exactly the baseline result. Realistic = the kind of regression a maintainer could introduce by a refactoring, an optimisation, a tidy-up, an off-by-one, a swapped argument, a dropped special case, a cache, a changed iteration order. It must need something SPECIFIC to manifest - an unusual input shape, a particular nesting or variance, a multi-step sequence of calls, a particular insertion order, two sites that each look fine alone - not something that ordinary use would expose at once. Do not add dead code, random behaviour, environment checks or anything that is obviously sabotage. {extra}
 
-Then write a demonstration: a small standalone script that uses only the library's public behaviour, exits 0 (prints PASS) on the untouched tree and exits non-zero (prints FAIL and what went wrong) with your change applied. Verify both yourself (use `git stash` / `git diff` inside the worktree to switch), and verify the test-suite baseline with the change applied.
+Then write a demonstration: a small standalone script that uses only the library's public behaviour, exits 0 (prints PASS) on the untouched tree and exits non-zero (prints FAIL and what went wrong) with your change applied. Verify both yourself (save your change with `git diff > MUTATION/patch.diff`, switch with `git checkout -- transforge` and `git apply MUTATION/patch.diff`; do NOT use `git stash` - the stash is shared with other worktrees), and verify the test-suite baseline with the change applied.
 
 Deliver exactly these files (create the directory):
   {wt}/MUTATION/patch.diff   - output of `git diff` for the library change only (must apply with `git apply` on the untouched tree)
